@@ -105,12 +105,13 @@ def run_engine_parallel(ctx, K):
         run_par_stream(ctx, K, b0, profile, 4, tier_n(ctx, 150, 3000), "par4_" + profile, False, claim=ctx.pid, include=inc, online=True)
 
 
-def run_kindtrace(ctx, K):
+def run_kindtrace(ctx, K, structural=False):
     """differential tester for the node kinds outside the generated alphabet (Map3..8, MapIf, BindIf, Bind3/4, Cutoff2, Freeze,
-    Func, Watch, Timer, clock kinds inside programs, folds, incrutil helpers, slicei): implementation only"""
+    Func, Watch, Timer, clock kinds inside programs, folds, incrutil helpers, slicei): implementation only.
+    structural: only CheckInvariants / membership / drain / panics / spurious errors count (C05, C06, C10)."""
     b = K.go_build(ctx, "kindtrace")
     if b:
-        K.run_tool(ctx, b, ["-n", str(tier_n(ctx, 150, 3000)), "-seed", str(ctx.seed), "-claim", ctx.pid], "kinds")
+        K.run_tool(ctx, b, ["-n", str(tier_n(ctx, 150, 3000)), "-seed", str(ctx.seed), "-claim", ctx.pid] + (["-structural"] if structural else []), "kinds")
 
 
 def run_corpus(ctx, K):
@@ -128,6 +129,10 @@ def run_engine(ctx, K):
     run_corpus(ctx, K)
     if ctx.pid in ("C01", "C11"):
         run_kindtrace(ctx, K)
+    if ctx.pid in ("C05", "C06", "C10"):
+        # every remaining node kind is built, observed, torn down and rebuilt under binds there: the graph's own
+        # invariants, membership against the reference and the drain after the last Unobserve are these properties' business
+        run_kindtrace(ctx, K, structural=True)
     if ctx.pid in ("C01", "C02", "C03", "C05", "C06", "C13"):
         # the >64-entry edge index sits under every wide node's dependents, inputs and observers: values (C01),
         # ordering (C02), missed runs (C03) and leaks (C06) all go through it
